@@ -1479,12 +1479,16 @@ htp_status_t htp_tx_state_response_headers(htp_tx_t *tx) {
                         tx->connp->out_decompressor->callback = htp_tx_res_process_body_data_decompressor_callback;
                         comp = tx->connp->out_decompressor;
                     } else {
-                        comp->next = htp_gzip_decompressor_create(tx->connp, cetype);
-                        if (comp->next == NULL) {
+                        // Codings are listed in the order in which they were applied (RFC 7231,
+                        // 3.1.2.2), so they have to be removed in the reverse order: the decompressor
+                        // of a later coding goes in front of those of the earlier ones.
+                        comp = htp_gzip_decompressor_create(tx->connp, cetype);
+                        if (comp == NULL) {
                             return HTP_ERROR;
                         }
-                        comp->next->callback = htp_tx_res_process_body_data_decompressor_callback;
-                        comp = comp->next;
+                        comp->callback = htp_tx_res_process_body_data_decompressor_callback;
+                        comp->next = tx->connp->out_decompressor;
+                        tx->connp->out_decompressor = comp;
                     }
                 }
 
